@@ -234,9 +234,10 @@ def build(r, env=None, cc=None):
     env = {} if env is None else env
     k = r["k"]
     if k == "var":
+        b = _bounds_form(r["b"], r.get("b_form"))
         if r.get("cls") == "sub":
-            return Item(r["id"], bounds=tuple(r["b"]))        # an instance of a subclass of puan.variable
-        return puan.variable(r["id"], bounds=tuple(r["b"]))
+            return Item(r["id"], bounds=b)        # an instance of a subclass of puan.variable
+        return puan.variable(r["id"], bounds=b)
     if k == "str":
         return r["id"]
     if k == "ref":
@@ -254,7 +255,7 @@ def build(r, env=None, cc=None):
     elif k == "Any":
         m = pg.Any(*args, variable=vid)
     elif k == "AtLeast":
-        m = pg.AtLeast(r["value"], _as_iterable(args, r.get("iter")), variable=vid, sign=r.get("sign"))
+        m = pg.AtLeast(_num_form(r["value"], r.get("v_form")), _as_iterable(args, r.get("iter")), variable=vid, sign=_sign_form(r.get("sign"), r.get("s_form")))
     elif k == "AtMost":
         m = pg.AtMost(r["value"], _as_iterable(args, r.get("iter")), variable=vid)
     elif k == "Xor":
@@ -282,6 +283,52 @@ def build(r, env=None, cc=None):
     if r.get("label") is not None:
         env[r["label"]] = m
     return m
+
+
+def _bounds_form(b, form):
+    """the accepted ways of writing bounds: tuple, list, numpy array, numpy integers, a Bounds object, one int for a constant"""
+    import numpy
+    lo, hi = int(b[0]), int(b[1])
+    if form == "list":
+        return [lo, hi]
+    if form == "ndarray":
+        return numpy.array([lo, hi])
+    if form == "npints":
+        return (numpy.int64(lo), numpy.int64(hi))
+    if form == "Bounds":
+        return puan.Bounds(lo, hi)
+    if form == "int" and lo == hi:
+        return lo
+    return (lo, hi)
+
+
+def _num_form(v, form):
+    import numpy
+    return numpy.int64(v) if form == "np" else v
+
+
+def _sign_form(sign, form):
+    import numpy
+    if sign is None:
+        return None
+    if form == "enum":
+        return puan.Sign(sign)
+    if form == "np":
+        return numpy.int64(sign)
+    return sign
+
+
+def apply_forms(r, rng, p=0.5):
+    """writes the same recipe with other (equivalent) argument forms"""
+    for n in _walk(r):
+        if n["k"] == "var" and rng.random() < p:
+            n["b_form"] = rng.choice(["list", "ndarray", "npints", "Bounds", "int", "tuple"])
+        if n["k"] == "AtLeast":
+            if rng.random() < p:
+                n["v_form"] = rng.choice(["np", None])
+            if n.get("sign") is not None and rng.random() < p:
+                n["s_form"] = rng.choice(["enum", "np", "int"])
+    return r
 
 
 def _as_iterable(args, how):
